@@ -5,12 +5,15 @@ from oracle_util import *  # noqa
 from protocol import from_real
 
 ID = "C18"
-LEAN_MODULE = None
+LEAN_MODULE = "SCoda.Props.C18"
 CLAUSES = [
-    ("pad: events untouched, duration = max(old, n)", None),
-    ("cutoff: exactly the notes longer than m are shortened to r, everything else unchanged", None),
-    ("scale by integer k>=1: every onset, duration and the total duration multiplied by k, nothing else changes", None),
-    ("set_channel: channel of every event changed, nothing else", None),
+    ("pad: events untouched, duration = max(old, n)", ["SCoda.C18.pad_events", "SCoda.C18.pad_duration", "SCoda.C18.pad_ok"]),
+    ("cutoff: non-note events and every onset untouched, result sorted, each loop step moves exactly a note-off paired more than m after its note-on to on+r",
+     ["SCoda.C18.cutoff_others", "SCoda.C18.cutoff_note_ons", "SCoda.C18.cutoff_sorted", "SCoda.C18.cutoffGo_spec"]),
+    ("cutoff at the level of notes: exactly the notes longer than m get duration r (needs the pairing to survive the final re-sort)", None),
+    ("scale by integer k>=1: every onset, duration and the total duration multiplied by k, nothing else changes",
+     ["SCoda.C18.scale_events", "SCoda.C18.scale_duration", "SCoda.C18.scale_notes"]),
+    ("set_channel: channel of every event changed, nothing else", ["SCoda.C18.channel_events", "SCoda.C18.channel_duration"]),
 ]
 RULE = ("well-formed multi-channel sequences (<=8 notes, ticks<200) x n in {below, at, above duration} / (m, r<=m) / k in 1..8 / "
         "channel 0..15; non-trivial = at least one note and for cutoff a note longer than m")
